@@ -22,7 +22,7 @@ MUTS = {
     edit("src/spox/_standard.py", '            raise type(e)(\n                f"{str(e)} -- for {self.schema.name}: {self.signature}"\n            ) from e', "            return {}")),
  "R3 rename StandardNode/Inputs/op_type + unk__ kept": lambda: (
     rename_all("StandardNode", "StandardOp"), rename_all("op_type", "operator_id"), rename_all("_get_field_type", "_kind_of"),
-    edit("src/spox/_standard.py", 'lambda x: x.startswith("unk__")', "lambda x: False")),
+    edit("src/spox/_standard.py", 'lambda x: x.startswith("unk__") and x not in given', "lambda x: False")),
  "R4 rename value_prop_backend/_value_prop module symbols + initializers not passed": lambda: (
     rename_all("value_prop_backend", "value_propagation_backend"), rename_all("ValuePropBackend", "PropBackend"),
     edit("src/spox/_standard.py", "            if var._value and isinstance(var._value.value, np.ndarray)\n        ]", "            if False\n        ]")),
